@@ -707,6 +707,14 @@ func (c *checker) judge(img *image, runId string, di, disk dirInfo, ch *syncer.S
 				w(map[string]any{"newest_run_starts": runL}))
 		}
 	}
+	// (2c) ... and it is the NEWEST data that is kept: a report that ends before the newest log
+	// segment of the image means the newest segments were discarded in favour of older ones
+	if len(ds) > 0 && rep.R < ds[len(ds)-1].Right() {
+		nw := ds[len(ds)-1]
+		c.r.Violation("stale|newest-segments-discarded-older-kept"+tag, key,
+			fmt.Sprintf("the reported range [%d,%d] ends before the newest log segment of the image [%d,%d): the cache kept and reports older segments and discarded newer ones (truncation keeps only the newest contiguous run)", rep.L, rep.R, nw.Left, nw.Right()),
+			w(map[string]any{"newest_segment": []int64{nw.Left, nw.Right()}}))
+	}
 	// (3) a snapshot is offered only if all its bytes are there
 	if rep.RdbL != -1 {
 		c.r.Count("opens_offering_snapshot", 1)
@@ -1202,6 +1210,17 @@ func (c *checker) checkImage(img *image, nAlter int) {
 			c.r.Count("images_mid_directory_removal", 1)
 		}
 		sig += fmt.Sprintf("|rdb=%s|segs=%s|tail=%s|gap=%s|midseg-unfinal=%v|ingc=%d|indel=%d", rdbState, bucket(len(ds)), tail, gap, unfinalMiddle, st.InGc, st.InDel)
+		if len(di.segs) > 1 && len(fmt.Sprint(di.segs[0].Left)) != len(fmt.Sprint(di.segs[len(di.segs)-1].Left)) {
+			// lexical directory order differs from offset order
+			sig += "|names=mixed-width"
+			c.r.Count("images_with_segment_names_of_different_width", 1)
+			if sg {
+				c.r.Count("images_with_segment_names_of_different_width_and_a_gap", 1)
+			}
+			if rdbState == "done" {
+				c.r.Count("images_with_segment_names_of_different_width_and_a_snapshot", 1)
+			}
+		}
 		for _, crc := range []bool{false, true} {
 			c.checkOpen(img, id, di, crc, rng)
 		}
@@ -1336,6 +1355,49 @@ func genParams(rng *rand.Rand, hostile bool) prf.Params {
 		}
 	}
 	return p
+}
+
+// decadeCrossing moves, for a third of the chains, the start of a generation's log just below
+// a power of ten, so that the directory holds segment names of different length (…99xxx.aof,
+// 100xxx.aof): lexical directory order then differs from offset order.  Drawn from its own PRNG
+// stream; only L (and a cap on S) changes.  Generation g owns [g*2^26,(g+1)*2^26): 10^3..10^7 lie
+// in generation 0, 10^8 in generation 1.
+func decadeCrossing(rng *rand.Rand, p *prf.Params) {
+	if rng.Intn(3) != 0 {
+		return
+	}
+	pow := func(k int) int64 {
+		v := int64(1)
+		for ; k > 0; k-- {
+			v *= 10
+		}
+		return v
+	}
+	set := func(g int, k int) {
+		gen := &p.Gens[g]
+		below := gen.Log / 3 // bytes of log in front of the boundary
+		if lim := pow(k) / 2; below > lim {
+			below = lim
+		}
+		if rng.Intn(3) == 0 && below > p.LogSize { // sometimes less than one segment in front of it
+			below = p.LogSize
+		}
+		l := pow(k) - 1 - rng.Int63n(below)
+		if l <= int64(g)*prf.GenStride+100 {
+			return
+		}
+		gen.L = l
+		if local := l - int64(g)*prf.GenStride; gen.S >= local {
+			gen.S = local - 1
+		}
+		if gen.S < 64 {
+			gen.S = 64
+		}
+	}
+	set(0, 3+rng.Intn(5))
+	if rng.Intn(4) != 0 {
+		set(1, 8)
+	}
 }
 
 // threadsStopped: every thread of pid is in state T (a stopped process performs no syscalls).
@@ -1491,6 +1553,7 @@ func runCase(r *harness.Run, ci int, root, childBin string, perCase int) []*imag
 	caseKey := fmt.Sprintf("case-%d", ci)
 	rng := r.Rand(caseKey)
 	p := genParams(rng, ci%3 == 2)
+	decadeCrossing(r.Rand("decade|"+caseKey), &p)
 	cdir := filepath.Join(root, caseKey)
 	_ = os.MkdirAll(cdir, 0o755)
 	defer os.RemoveAll(cdir)
